@@ -177,7 +177,7 @@ func hEscMD(s string) string { return hEsc(s) }
 //vf:shards 14
 func VfC02_DINodes() {
 	k := vfChoice("kind", len(hC17Kinds))
-	src := "!nm = !{!3}\n!3 = " + hC17Kinds[k].text + "\n" +
+	src := "!nm = !{!3}\n!3 = " + hC17Kinds[k].text + "\n!4 = !{}\n!5 = !{!8}\n" +
 		"!6 = distinct !DIGlobalVariable(name: \"gg\", scope: !8, file: !9, line: 2, type: !8, isLocal: true, isDefinition: true)\n" +
 		"!7 = !{!3}\n!8 = !{}\n!9 = !DIFile(filename: \"a.c\", directory: \"/\")\n"
 	m, err := ParseString("k.ll", src)
